@@ -180,14 +180,14 @@ func c05RunProxy(env *c05ProxyEnv, c c05ProxyCase) (out c05Out) {
 	}()
 	var pan any
 	returned := false
-	closeBegun, closeReturned := false, false
+	closeBegun, closeSyncOpen := false, 0
 	t0 := time.Now()
 	orphaned := 0 // consecutive observations of "Proxy waits, no halfPipe alive"
 	for !returned {
 		select {
 		case pan = <-pdone:
 			returned = true
-			closeBegun, closeReturned = client.closeState() // at the moment Proxy returned
+			closeBegun, _, closeSyncOpen = client.closeState() // at the moment Proxy returned
 		case <-time.After(300 * time.Millisecond):
 			gs, inPipe, inWait := c05RelayGoroutines()
 			if inWait && !inPipe {
@@ -349,15 +349,20 @@ func c05RunProxy(env *c05ProxyEnv, c c05ProxyCase) (out c05Out) {
 			fail("ended-without-failure", fmt.Sprintf("the upload was cut off although neither side had failed: the covert was waiting for %d bytes before answering, got %d and then saw %q; no call on the client connection returned an error", c.Await, res.recvN, res.readErr))
 		}
 	}
-	// teardown at the moment Proxy returned. Each direction closes its destination synchronously
-	// before it signals the WaitGroup (only the source is closed asynchronously), so: Close of the
-	// client connection has at least been called; and where the download direction ends first its
-	// own Close call is the first one on the client connection and has returned.
+	// teardown at the moment Proxy returned. Each direction closes its destination synchronously,
+	// on its own goroutine, before it signals the WaitGroup; only the source is closed by a detached
+	// goroutine. So at that moment Close of the client connection has at least been called, and no
+	// Close call issued on a halfPipe's own goroutine is still in progress.
 	if !closeBegun {
 		fail("teardown:waitgroup-released-before-close", "Proxy returned although Close had not yet been called on the client connection")
-	} else if downFirst && res.recvN == c.Await && !closeReturned {
-		fail("teardown:waitgroup-released-before-close", fmt.Sprintf("Proxy returned while the download direction's Close of the client connection (lingering %d ms) was still in progress: the tunnel is reported closed and the session gauge lowered while a goroutine is still inside Close", c.Client.CloseMs))
+	} else if closeSyncOpen > 0 {
+		fail("teardown:waitgroup-released-before-close", fmt.Sprintf("Proxy returned while a direction's own (synchronous) Close of the client connection (lingering %d ms) was still in progress: the tunnel is reported closed and the session gauge lowered while that halfPipe is still inside Close", c.Client.CloseMs))
 	}
+	client.w.mu.Lock()
+	if client.syncSeen > 0 {
+		set["close:sync-attributed"] = true
+	}
+	client.w.mu.Unlock()
 	for t0 := time.Now(); !client.isClosed() && time.Since(t0) < 5*time.Second; {
 		time.Sleep(200 * time.Microsecond)
 	}
@@ -459,7 +464,7 @@ func c05ProxyGen(rt *rapid.T) c05ProxyCase {
 func TestVerif_C05_proxy(t *testing.T) {
 	rec := vh.NewRec("C05", "proxy", "rapid-drawn tunnels through Proxy(): scripted client connection (0-5 upload steps: chunks of 1 B .. 70000 B or, with probability 1/6, a zero-length read without error; optional write fault / SetDeadline fault / Close error / lingering Close of 15-40 ms; last chunk optionally returned together with EOF or an error) x real loopback TCP covert {sinks the upload until the station closes, replies and closes with FIN, replies and resets with SetLinger(0), refuses the connection} with 0-3 reply writes of 1 B .. 70000 B; non-trivial = an injected fault other than a plain EOF alone was hit, or the covert reset / refused; distinct by case")
 	defer rec.Flush()
-	rec.Require("mode:sink", "mode:reply-fin", "mode:reply-rst", "mode:refuse", "up:complete-demanded", "down:complete-demanded", "down-ends-first", "read:data+eof", "read:zero-length", "close:slow", "write:short")
+	rec.Require("mode:sink", "mode:reply-fin", "mode:reply-rst", "mode:refuse", "up:complete-demanded", "down:complete-demanded", "down-ends-first", "close:sync-attributed", "read:data+eof", "read:zero-length", "close:slow", "write:short")
 	c05QuietStats(t)
 	env := c05NewProxyEnv(t)
 	if p := vh.ReplayFile(); p != "" {
